@@ -2,26 +2,31 @@
 import sys
 from ..common import run_check
 from ..family import sweep
-from ..srules import ownership
+from ..srules import ownership, ownsem
 from ..srules.core import SourceIndex
 from ._kcheck import FAMILY_ASSUMPTIONS
 
 
 def main(ctx):
     ctx.explanation = (
-        "The ownership structure that makes any del/gc/pickle history safe, decided statically: [S] typestate of the output "
-        "struct in TensorMethod.__call__ (fresh from allocate_taco_structure, kernel call, take_ownership_of_arrays exactly once "
-        "and post-dominating the kernel call before any raise/return, never on an input); [S] the slots wrapped with "
-        "ffi.gc(ptr, free) are pos and crd of every sparse level and vals; [K] on every evaluate/assemble kernel of the family the "
-        "arrays the kernel mallocs are handed back through exactly those slots, each assigned after the last realloc, nothing "
-        "else is allocated, inputs are never store roots; [S] finalisers are stored in the holder registered for the struct in a "
-        "WeakKeyDictionary and the Tensor keeps the struct; [S] free/ffi.gc occur only in _cffi_ownership.py."
+        "The ownership structure that makes any del/gc/pickle history safe, decided statically. [S, abstract evaluation in a model "
+        "of cffi - vf/srules/ownsem.py] allocate_taco_structure, take_ownership_of_arrays and taco_structure_to_cffi are "
+        "interpreted from source for every combination of level modes up to order 3, over every path (the hand-over may branch "
+        "on what the kernel wrote): exactly the pointers a kernel mallocs (pos and crd of every compressed level, vals) get one "
+        "ffi.gc(ptr, free) wrapper each, every wrapper and every cdata the structure points to is reachable from the holder "
+        "registered under that structure, nothing cffi owns gets a free() destructor; TensorMethod.__call__ is evaluated with an "
+        "event log: on every path that runs the kernel the output was allocated by this call and is handed over exactly once "
+        "between the kernel's return and the end of the path (return or raise), nothing else is ever handed over, the result "
+        "wraps that structure. [K] on every evaluate/assemble kernel of the family the arrays the kernel mallocs are handed back "
+        "through exactly those slots, each assigned after the last realloc; inputs are never store roots. [S] no eager release, "
+        "weakref.finalize, __del__ or exit hook in the tensor layer; free/ffi.gc only in _cffi_ownership.py; borrowed pointers "
+        "never outlive a reference to their tensor; the holder table is a WeakKeyDictionary."
     )
     ctx.assumptions = FAMILY_ASSUMPTIONS + ["CPython/cffi finaliser ordering and all del/gc/pickle interleavings are NOT decided (history quantifier)"]
     ix = SourceIndex(ctx.src)
-    ownership.rule_handover(ctx, ix)
-    ownership.rule_owned_slots(ctx, ix)
-    ownership.rule_anchoring(ctx, ix)
+    ownsem.rule_handover_semantics(ctx, ix)
+    ownsem.rule_ownership_semantics(ctx, ix)
+    ownership.rule_weak_table(ctx, ix)
     ownership.rule_who_may_free(ctx, ix)
     ownership.rule_lifetime(ctx, ix)
     ownership.rule_borrowed_pointers(ctx, ix)
